@@ -181,6 +181,40 @@ func runDuel(rep *Report, rng *rand.Rand, dur time.Duration) {
 	stop := make(chan struct{})
 	var wg sync.WaitGroup
 	var cycles atomic.Int64
+	// C05: every term gets a token nobody has had before; C18: every Status() snapshot is self-consistent
+	tokens := map[string]string{}
+	dupTok, incoherent := "", ""
+	for i := range els {
+		i := i
+		els[i].OnPromote(func(ctx context.Context, token string) {
+			mu.Lock()
+			if prev, ok := tokens[token]; ok && dupTok == "" {
+				dupTok = fmt.Sprintf("token %q handed to i%d was handed to %s before", token, i+1, prev)
+			}
+			tokens[token] = fmt.Sprintf("i%d", i+1)
+			mu.Unlock()
+		})
+		wg.Add(1)
+		go func() {
+			defer wg.Done()
+			for {
+				select {
+				case <-stop:
+					return
+				default:
+				}
+				st := els[i].Status()
+				if st.IsLeader != (st.State == "LEADER") || (st.IsLeader && (st.LeaderID != fmt.Sprintf("i%d", i+1) || st.Token == "")) {
+					mu.Lock()
+					if incoherent == "" {
+						incoherent = fmt.Sprintf("i%d: %+v", i+1, st)
+					}
+					mu.Unlock()
+				}
+				time.Sleep(50 * time.Microsecond)
+			}
+		}()
+	}
 	for i := range els {
 		el := els[i]
 		seed := rng.Int63()
@@ -215,6 +249,13 @@ func runDuel(rep *Report, rng *rand.Rand, dur time.Duration) {
 	rep.Compared += int(cycles.Load())
 	rep.nontrivial("duel")
 	rep.hit("stress:duel-cycles")
+	if dupTok != "" {
+		rep.violation(Finding{Property: "C05", Clause: "token-repeated-under-concurrency", Input: "duel", Detail: dupTok})
+	}
+	if incoherent != "" {
+		rep.violation(Finding{Property: "C18", Clause: "status-incoherent-under-concurrency", Input: "duel", Detail: incoherent})
+	}
+	rep.Dist["stress:terms"] += len(tokens)
 	if double > 0 {
 		rep.violation(Finding{Property: "C02", Clause: "two-leaders-under-concurrency",
 			Input:  fmt.Sprintf("duel of 3 elections for %v: start / graceful stop with key deletion in a loop (%d cycles)", dur, cycles.Load()),
